@@ -12,6 +12,9 @@
   K (model ∋ impl): whenever the implementation SCATTERS (Concat / TwoPhase / TopN over table T) the model of the capability
     check admits exactly that shape over T (`IQE.Engine.DistPlan.scatterShape T plan = some shape`) — the shapes for which
     the decomposition theorems of IQE.Props.C09 apply; a gather is always admissible.
+  STATUS 2026-09-22: C09-F1, F2, F3, F4, F5, F7 are FIXED in /repo (5eedc1f, 0ffff93, a981e18, 1c600c2+6d3344d, 86e0558, faff63a):
+    their ids are no longer open in known_findings.json, so ./check attributes nothing to them and a recurrence is a VIOLATION;
+    the signatures / switches below stay as documentation of the witnesses in corpus/C09 and for the evidence tags.
   Attribution (a failing case is attributed only if EVERY failing run is explained; F2 / F3 are mirrored exactly by deviation
     switches of `Dev` — tags dev:F*:hit / miss / spurious measure the mirror —, the others by signature + neutraliser; the model
     with all switches off predicts no failure, i.e. satisfies O by construction):
